@@ -17,8 +17,15 @@ class Worker:
                                   text=True, env=env, cwd="/")
 
     def call(self, op, **a):
+        timeout = a.pop("_timeout", None)
         self.p.stdin.write(json.dumps({"op": op, "a": a}) + "\n")
         self.p.stdin.flush()
+        if timeout is not None:
+            import select
+            ready, _, _ = select.select([self.p.stdout], [], [], timeout)
+            if not ready:
+                self.p.kill()
+                raise TimeoutError("worker did not answer %s within %ss" % (op, timeout))
         line = self.p.stdout.readline()
         if not line:
             err = self.p.stderr.read()
